@@ -382,3 +382,6 @@ def check(ctx):
     ctx.run('C12.R8', 'an AsyncFd dropped in any state releases exactly its own descriptor: queued close XOR one synchronous close of the right kind (C07.R4)', c07.r4_drop_paths)
     ctx.run('C12.R9', 'close encodings name the dropped descriptor itself (fd / file_index = fd+1 / files_update.offset = fd) (C07.R5)', c07.r5_encodings)
     ctx.run('C12.R7', 'LIFE-3/4: abandoned states are reclaimed by the final completion processed in teardown', life.life4)
+    from . import c18
+    ctx.run('C12.R11', 'every mapping made while building the ring is unmapped on the error paths and handed to exactly one owner on success (no armed clean-up guard survives) (=C18.R2)', c18.r2_map_unmap)
+    ctx.run('C12.R10', 'an operation abandoned while running is always marked Dropped (also when no cancel request could be queued): only then does a later poll or the teardown reclaim its state (=LIFE-3)', life.life3)
